@@ -117,7 +117,7 @@ def collect(chk, rng, routines, per_routine, quick=True, extra=None, gen=None):
     return recs
 
 
-def _patch_greedy(name, calls):
+def _patch_greedy(name, calls, online=None):
     import importlib
     modname = {"dqn": "dqn", "nature_dqn": "nature_dqn", "ddqn": "ddqn", "per": "per"}.get(name)
     if modname is None:
@@ -128,7 +128,8 @@ def _patch_greedy(name, calls):
 
     def wrapped(q_net, obs):
         a = orig(q_net, obs)
-        qv = np.asarray(q_net(jnp.array([obs])), dtype=float).reshape(-1)
+        net = online() if online is not None else q_net       # the routine's current estimate, not whatever network it passed
+        qv = np.asarray(net(jnp.array([obs])), dtype=float).reshape(-1)
         calls.append((np.array(obs, copy=True), int(a), qv))
         return a
     mod.greedy_policy = wrapped
